@@ -303,6 +303,7 @@ static void check_c01(const TypeOps& t) {
 // side assertion of C01's stated exclusion: a logical buffer whose size member exceeds its capacity must be rejected
 static void over_capacity(const Sch& s, Val& v, bool* done) {
   if (*done) return;
+  if (s.unbounded) return;  // NOP_UNBOUNDED_BUFFER: no capacity to exceed, the caller vouches for the storage
   if (s.k == K::BinLB) {
     uint64_t maxcount = s.sw >= 8 ? ~0ULL : ((1ULL << (8 * s.sw - (s.ssigned ? 1 : 0))) - 1);
     if (s.n + 1 <= maxcount) { v.raw = pattern_bytes((s.n + 1) * s.w, s.w, s.boolelem); *done = true; }
@@ -760,6 +761,9 @@ int main(int argc, char** argv) {
       printf("{\"t\":\"stat\",\"counters\":{\"incomplete\":1,\"types_skipped_deadline\":1},\"distinct\":0,\"violations\":0,\"sigcounts\":{},\"outcomes\":[],\"notes\":[\"deadline reached before type %s\"]}\n", jesc(t.name).c_str());
       continue;
     }
+    // the "array of length 1 at the end of the structure" idiom of unbounded logical buffers indexes past the declared
+    // bound by design (UBSan -fsanitize=bounds reports it): those types run in the non-sanitizer build only
+    if (under_asan() && t.sch.has_unbounded()) continue;
     fflush(stdout);
     g_progress[8] = 0;
     pid_t pid = fork();
